@@ -21,8 +21,10 @@ ASSUMPTIONS = {"C10": [
     "concurrent client programs (ApiPrograms.tla); TLA+ itself does not decide data-race freedom of Go code.",
     "A report counts as a kafka-go race when the racing frame of one of its two stacks (the first frame that is not Go "
     "runtime / standard library) is non-test code of github.com/segmentio/kafka-go. Reports whose racing frames are both in "
-    "the harness / fake cluster are harness bugs (listed, never a verdict); reports whose racing frames are inside "
-    "klauspost/compress or pierrec/lz4 are listed as third-party.",
+    "the harness / fake cluster are harness bugs (listed, never a verdict). A report whose racing frames are inside "
+    "klauspost/compress or pierrec/lz4 counts as a kafka-go race only when on BOTH stacks that code was called (through library "
+    "frames only) from kafka-go code, i.e. kafka-go hands one third-party object to two goroutines without synchronisation (key = the "
+    "two kafka-go callers); otherwise it is listed as third-party.",
     "The programs run against the in-memory fake cluster (harness/fakenet, fakekafka): its pipes and broker goroutines add "
     "the happens-before edges a network round trip implies (request written -> response read) and no others; kafka.VerifHook "
     "is nil in every run, Logger / ErrorLogger are nil in the programs of harness/racedrv.",
@@ -31,7 +33,8 @@ ASSUMPTIONS = {"C10": [
 ]}
 
 CHEAP = ("balancer", "codec")          # pure in-process types: every pair x every variant is run in both tiers
-NVARIANT = {"balancer": 11, "codec": 7}
+NVARIANT = {"balancer": 11, "codec": 11}
+PROFILED = ("conn", "batch")         # Program.variant % 3 selects the API versions the brokers advertise (racedrv.versionProfiles)
 
 
 # ------------------------------------------------------------------------------------------------ TLC parts
@@ -223,28 +226,46 @@ def rel_file(path):
 
 
 def racing_frame(frames):
-    """The access itself: the first frame that is not runtime / standard library."""
-    for fn, path, line in frames:
+    """The access itself: the first frame that is not runtime / standard library. When that frame is third-party code
+    (klauspost, pierrec ...) that was called, through library frames only, from kafka-go code, the kafka-go caller is returned
+    as well: kafka-go is then the user of the third-party object on this side of the race."""
+    for i, (fn, path, line) in enumerate(frames):
         c = frame_class(fn, path)
-        if c != "std":
-            return c, fn, path, line
-    return ("std",) + (frames[0] if frames else ("?", "", 0))
+        if c == "std":
+            continue
+        owner = None
+        if c == "third":
+            for fn2, path2, line2 in frames[i + 1:]:
+                c2 = frame_class(fn2, path2)
+                if c2 in ("std", "third"):
+                    continue
+                if c2 == "kafka":
+                    owner = (fn2, path2, line2)
+                break
+        return c, fn, path, line, owner
+    return ("std",) + (frames[0] if frames else ("?", "", 0)) + (None,)
 
 
 def classify(rep):
     sides = []
     for st in rep["stacks"]:
-        c, fn, path, line = racing_frame(st["frames"])
-        sides.append({"class": c, "func": short_fn(fn), "file": rel_file(path) if path else "", "line": line, "what": st["what"],
-                      "entry": entry_method(st["frames"])})
+        c, fn, path, line, owner = racing_frame(st["frames"])
+        side = {"class": c, "func": short_fn(fn), "file": rel_file(path) if path else "", "line": line, "what": st["what"],
+                "entry": entry_method(st["frames"])}
+        if owner:
+            side["via"] = "%s@%s:%d" % (side["func"], side["file"], line)
+            side.update({"class": "kafka-via-third", "func": short_fn(owner[0]), "file": rel_file(owner[1]), "line": owner[2]})
+        sides.append(side)
     while len(sides) < 2:
         sides.append({"class": "unknown", "func": "?", "file": "", "line": 0, "what": "[stack not restored]", "entry": ""})
-    classes = {s["class"] for s in sides}
+    classes = [s["class"] for s in sides]
     if "kafka" in classes:
         kind = "kafka"
+    elif classes.count("kafka-via-third") == 2:
+        kind = "kafka"          # both goroutines use one third-party object on behalf of kafka-go code: kafka-go shares it unsynchronised
     elif "harness" in classes:
         kind = "harness"
-    elif "third" in classes:
+    elif "third" in classes or "kafka-via-third" in classes:
         kind = "third"
     else:
         kind = "other"
@@ -293,14 +314,16 @@ class Runner:
         ctx = self.ctx
 
         def one(idx_job):
-            idx, (tag, mode_args, rows, timeout) = idx_job
+            idx, job = idx_job
+            tag, mode_args, rows, timeout = job[:4]
+            extra_env = job[4] if len(job) > 4 else {}
             base = os.path.join(ctx.work, "%s-%d" % (tag, idx))
             write_ndjson(base + ".in.ndjson", rows)
             prefix = base + ".racelog"
             args = mode_args(base + ".in.ndjson", base + ".out.ndjson")
             t0 = time.time()
             try:
-                p = ctx.run_vh(args, timeout=timeout, race=True, env=gorace(prefix))
+                p = ctx.run_vh(args, timeout=timeout, race=True, env=dict(gorace(prefix), **extra_env))
                 rc, err = p.returncode, (p.stderr or "")[-3000:]
             except subprocess.TimeoutExpired:
                 rc, err = -9, "timeout after %ds" % timeout
@@ -374,6 +397,10 @@ def choose_programs(ctx, progs, lead_programs):
                     chosen.append(dict(p, variant=v, rounds=rounds))
             continue
         for p in pairs:          # every method pair, in several configurations of the value
+            if typ in PROFILED:  # ... and under every version profile: Conn has one code path per negotiated version
+                for i in range(3 if quick else 12):
+                    chosen.append(dict(p, variant=3 * rng.randrange(300) + i % 3, rounds=rounds))
+                continue
             for _ in range(2 if quick else 10):
                 chosen.append(dict(p, variant=rng.randrange(1000), rounds=rounds))
         if quick:
@@ -386,18 +413,35 @@ def choose_programs(ctx, progs, lead_programs):
     for dt, m1, m2 in lead_programs:
         for v in range(4 if quick else 12):
             chosen.append({"type": dt, "shape": "lead", "threads": [[m1], [m2]], "variant": v, "rounds": 4})
+    # single-P pass (the processes of these programs run with GOMAXPROCS=1): pooled objects (codec readers / writers,
+    # hashers, page buffers) are handed from one goroutine to the next through the per-P slot of sync.Pool, which a
+    # multi-P run only does by chance. The cheap types again, and the Writer's produce path with every compression.
+    single = []
+    for typ in CHEAP:
+        for p in [q for q in by_type.get(typ, []) if q["shape"] == "pairs" or not quick]:
+            for v in range(NVARIANT[typ]):
+                single.append(dict(p, variant=v, rounds=rounds, single_p=True))
+    wr = [q for q in by_type.get("writer", []) if q["shape"] == "pairs" and any(m.startswith("Write") and m not in ("WriteEmpty", "WriteTooLarge") for th in q["threads"] for m in th)]
+    for p in wr:
+        for c in (1, 2, 3, 4):
+            single.append(dict(p, variant=3 * c + 15 * rng.randrange(60), rounds=rounds, single_p=True))
+    chosen += single
     for i, p in enumerate(chosen):
-        p["id"] = "p%05d-%s-%s" % (i, p["type"], p["shape"])
+        p["id"] = "p%05d-%s-%s%s" % (i, p["type"], p["shape"], "-1p" if p.get("single_p") else "")
     return chosen
 
 
 def run_programs(ctx, runner, chosen, cov):
     # spread the slow types evenly: deal programs round-robin after sorting by type
-    order = sorted(chosen, key=lambda p: (p["shape"] != "lead", p["type"], p["id"]))      # leads first: a process reports a race once
+    order = sorted([p for p in chosen if not p.get("single_p")], key=lambda p: (p["shape"] != "lead", p["type"], p["id"]))      # leads first: a process reports a race once
+    single = sorted([p for p in chosen if p.get("single_p")], key=lambda p: (p["type"], p["id"]))
     nproc = 14
-    slices = split(order, nproc)
+    to = 600 if ctx.tier == "quick" else 3000
+    mode = lambda i, o: ["race", "run", "-programs", i, "-out", o]
+    jobs = [("prog", mode, rows, to) for rows in split(order, nproc)]
+    jobs += [("prog", mode, rows, to, {"GOMAXPROCS": "1"}) for rows in (split(single, 6 if ctx.tier == "quick" else 14) if single else [])]
     t0 = time.time()
-    outs = runner.run_slices("prog", lambda i, o: ["race", "run", "-programs", i, "-out", o], slices, timeout=600 if ctx.tier == "quick" else 3000)
+    outs = runner.run_jobs(jobs, workers=nproc + 6)
     results = {}
     for o in outs:
         if o["rc"] != 0 or len(o["results"]) != len(o["rows"]):
@@ -431,6 +475,7 @@ def run_programs(ctx, runner, chosen, cov):
     cov["program_calls"] = calls
     cov["programs_by_type"] = per_type
     cov["programs_by_shape"] = {s: sum(1 for p in chosen if p["shape"] == s) for s in ("pairs", "follow", "triples", "lead")}
+    cov["programs_single_P"] = len(single)
     cov["methods_covered"] = {t: sorted(ms) for t, ms in sorted(methods.items())}
     cov["method_pairs_covered"] = {t: len(ps) for t, ps in sorted(pairs.items())}
     cov["program_wall_s"] = round(time.time() - t0, 1)
@@ -614,6 +659,7 @@ def run(ctx):
     if p.returncode != 0:
         raise Inconclusive("vh race types failed: " + p.stderr[-1000:])
     drv = json.loads(p.stdout)["types"]
+    cov["conn_version_profiles"] = json.loads(p.stdout).get("versionProfiles")
     alpha = alphabet(progs)
     if {t: sorted(ms) for t, ms in alpha.items()} != {t: sorted(ms) for t, ms in drv.items()}:
         diff = {t: sorted(set(alpha.get(t, [])) ^ set(drv.get(t, []))) for t in set(alpha) | set(drv)}
@@ -637,9 +683,11 @@ def run(ctx):
                    "engines re-run under it. A program is non-trivial when it has >= 2 threads that were released together by the start barrier on one "
                    "shared value and its calls were really executed (calls > 0); distinct = different (type, multiset of thread call sequences), "
                    "configuration variants and rounds of the same program are not counted again. quick: every method pair of every type + a "
-                   "seeded sample of the follow / triple shapes + the leads of Locks.tla; thorough: the whole enumerated space.")
-    smp = [p for p in chosen if p["shape"] in ("triples", "follow", "lead")][:3] + chosen[:2]
-    cov["samples"] = [{"program": {k: p[k] for k in ("id", "type", "shape", "threads", "variant", "rounds")}, "result": results[p["id"]]} for p in smp]
+                   "seeded sample of the follow / triple shapes + the leads of Locks.tla; thorough: the whole enumerated space. Conn / Batch pairs run under "
+                   "every advertised-version profile (conn_version_profiles); the codec / balancer programs and the Writer's produce pairs with every "
+                   "compression run a second time in processes with GOMAXPROCS=1 (sync.Pool hand-over between goroutines).")
+    smp = [p for p in chosen if p["shape"] in ("triples", "follow", "lead")][:3] + chosen[:2] + [p for p in chosen if p.get("single_p")][:1]
+    cov["samples"] = [{"program": {k: p.get(k) for k in ("id", "type", "shape", "threads", "variant", "rounds", "single_p")}, "result": results[p["id"]]} for p in smp]
     cov["exhaustive"] = False
     return cov
 
